@@ -30,6 +30,18 @@ simulation time as float / int / np.float32 / np.float64: every time and step a 
 the double-precision sum of the steps that advanced the state (correctdXdt's dt; math.fsum), stage times are t, t+dt/2,
 t+dt/2, t+dt of that dt, the run ends at tf, steps/stage arguments/states equal ref_solve on the VALUES, order per type;
 model: solveXR rnd (rk.solvefmt 64|32|16), theorems clock_state_same_dt, solveXR_clock_sum, witness coarse_clock_drifts.
+(6) SOLVER HISTORIES on ONE model object: 2-4 GenericModel.solve calls with solverType in {EXPLICITEULER, RK4, a user-supplied
+iterator (explicit midpoint)}, each with its own simTime / minDtFrac / maxDtFrac / step proposal, with and without a model-level
+reset in between, continuing from the model's current time, on a GenericModel subclass and on Couplers of 2 and 3 models, one or
+two objects of the same class with interleaved calls: per call the stage pattern at the derivative callback (evaluations per
+accepted step and their times), every stage argument and accepted state against ref_solve for the scheme REQUESTED IN THAT CALL
+from the state the previous call left, and the observed order of the call's own segment; model: solveCalls / solveCall / Scheme
+(rk.hist), theorems each_call_uses_its_scheme, call_is_single_run, call_rk4_exact_cubic, witness cached_solver_ignores_scheme.
+(7) STATE DTYPES: the model's state in int64 / int32 / float32 / float16 / float64 arrays, Python lists of ints, Python / NumPy
+integer scalars and mixtures, initial values whole numbers (dyadic for the float formats): trajectory = ref_solve on
+float(values), solver-computed states are floating point, the model's own arrays untouched, order 1 / 4; model:
+Flatten.unflattenTyped / deliver, rk4IterVia / eulerIterVia / passVia (rk.dtype), theorems deliver_eq,
+iterators_through_typed_state, witness casting_unflatten_freezes.
 """
 import math
 import os
@@ -40,7 +52,7 @@ from vlib import Result, enc_list, f2b, Toks, close
 
 PROP = 'C06'
 META = {
-    'level_text': 'Lean 4 theorems about the Butcher tableau that is extracted from the real iterators on every run (symbolic execution of ExplicitEulerIterator/RK4Iterator through DESolver._getdXdt/_updateX): stage times (0,1/2,1/2,1) and c_i = sum_j a_ij, all 8 order conditions up to order 4 (and failure of an order-5 / order-2 condition, so the orders are exactly 4 and 1), exact integration of y\'=t^k (k<=3) with error exactly dt^5/120 for k=4, the stability polynomial on y\'=lambda*y, equality of the hand model of the iterator code with the general Runge-Kutta step of the generated tableau for every right-hand side, and equality of the tableau seen by the getdXdt/postProcess callbacks of a model driven by GenericModel.solve and by every sub-model of a Coupler of 2 and of 3 differently shaped models (also generated by symbolic execution of the real glue: DESolver.solve/_getdXdt/_updateX, flattenX/unflattenX, Coupler.getdXdt/getDt/correctdXdt/postProcess) with the tableau of the iterator; exactness THROUGH the solve loop with the state carried along (KawinV.Solver.runX: the clock advances by the step the iterator was given): after any run, for every proposal function, min/max step fraction and stop schedule, Euler on y\'=c and Runge-Kutta on cubics in t give the exact solution at the time handed to postProcess (runX_telescope, solveX_telescope, solve_euler_exact_const, solve_rk4_exact_cubic); the compiled tableau and the hand model are compared with the real iterators on every run, the loop-with-state model with real runs through DESolver / GenericModel.solve / Couplers in state layouts mixing scalars and arrays (rk.solve), and the observed convergence order, callback times and input-vector preservation are checked directly on the real solver, through DESolver, GenericModel.solve and Couplers of 2-3 models (callback times of every sub-model). Ownership: rk4IterBuf models RK4Iterator for a right-hand side that evaluates into ONE reused work array, with the flatten function between model and iterator copying (np.hstack / np.concatenate, Flatten.flattenOwnership) or sharing (identity, reshape view): the iterator\'s private copy of k1 makes the step the Runge-Kutta step of the generated tableau in both cases (rk4IterBuf_any, rk4IterBuf_eq_rkStep); the iterator without that copy is first order with a shared array (witness rk4IterBufNoCopy_shared_linear/_defect/_quadrature: defect exactly z^2 y/12 per step). Number formats: solveXR rnd is the loop for a model that answers getDt in a format with rounding function rnd (the value is converted once by float(dt)); for EVERY rnd one dt advances clock, stage times and state (clock_state_same_dt), the clock is t0 + the sum of the accepted steps (solveXR_clock_sum, solveXR_state_clock) and exactness through the loop holds (solveXR_rk4_exact_cubic); a clock kept in a coarser format drifts from the sum of steps (witness coarse_clock_drifts over Q). Both are compared with the real code on every run (rk.buf on single steps with identity and np.hstack flatten; rk.solvefmt 64/32/16 on whole runs through DESolver, GenericModel.solve and a Coupler with getDt answering as float, np.float64, np.float32, np.float16, 0-d arrays, int).',
+    'level_text': 'Lean 4 theorems about the Butcher tableau that is extracted from the real iterators on every run (symbolic execution of ExplicitEulerIterator/RK4Iterator through DESolver._getdXdt/_updateX): stage times (0,1/2,1/2,1) and c_i = sum_j a_ij, all 8 order conditions up to order 4 (and failure of an order-5 / order-2 condition, so the orders are exactly 4 and 1), exact integration of y\'=t^k (k<=3) with error exactly dt^5/120 for k=4, the stability polynomial on y\'=lambda*y, equality of the hand model of the iterator code with the general Runge-Kutta step of the generated tableau for every right-hand side, and equality of the tableau seen by the getdXdt/postProcess callbacks of a model driven by GenericModel.solve and by every sub-model of a Coupler of 2 and of 3 differently shaped models (also generated by symbolic execution of the real glue: DESolver.solve/_getdXdt/_updateX, flattenX/unflattenX, Coupler.getdXdt/getDt/correctdXdt/postProcess) with the tableau of the iterator; exactness THROUGH the solve loop with the state carried along (KawinV.Solver.runX: the clock advances by the step the iterator was given): after any run, for every proposal function, min/max step fraction and stop schedule, Euler on y\'=c and Runge-Kutta on cubics in t give the exact solution at the time handed to postProcess (runX_telescope, solveX_telescope, solve_euler_exact_const, solve_rk4_exact_cubic); the compiled tableau and the hand model are compared with the real iterators on every run, the loop-with-state model with real runs through DESolver / GenericModel.solve / Couplers in state layouts mixing scalars and arrays (rk.solve), and the observed convergence order, callback times and input-vector preservation are checked directly on the real solver, through DESolver, GenericModel.solve and Couplers of 2-3 models (callback times of every sub-model). Ownership: rk4IterBuf models RK4Iterator for a right-hand side that evaluates into ONE reused work array, with the flatten function between model and iterator copying (np.hstack / np.concatenate, Flatten.flattenOwnership) or sharing (identity, reshape view): the iterator\'s private copy of k1 makes the step the Runge-Kutta step of the generated tableau in both cases (rk4IterBuf_any, rk4IterBuf_eq_rkStep); the iterator without that copy is first order with a shared array (witness rk4IterBufNoCopy_shared_linear/_defect/_quadrature: defect exactly z^2 y/12 per step). Number formats: solveXR rnd is the loop for a model that answers getDt in a format with rounding function rnd (the value is converted once by float(dt)); for EVERY rnd one dt advances clock, stage times and state (clock_state_same_dt), the clock is t0 + the sum of the accepted steps (solveXR_clock_sum, solveXR_state_clock) and exactness through the loop holds (solveXR_rk4_exact_cubic); a clock kept in a coarser format drifts from the sum of steps (witness coarse_clock_drifts over Q). Both are compared with the real code on every run (rk.buf on single steps with identity and np.hstack flatten; rk.solvefmt 64/32/16 on whole runs through DESolver, GenericModel.solve and a Coupler with getDt answering as float, np.float64, np.float32, np.float16, 0-d arrays, int). Histories: solveCalls is a history of GenericModel.solve calls on one model object (Scheme = what DESolver.setIterator dispatches on: the two built-in iterators or a user-supplied one; per call its own simulation time, step fractions, answers of the model, optional model-level reset): for EVERY history the model after call k is one run (solveX) of the scheme requested in call k from what call k-1 left (each_call_uses_its_scheme, call_is_single_run), a call that requests Runge-Kutta is exact on cubics over its own segment whatever was requested before (call_rk4_exact_cubic, call_euler_exact_const); a solver object cached from the first call integrates later calls with the first scheme (witness cached_solver_ignores_scheme / _continuation over Q; solveCallsCached_eq_of_same_scheme with the excluding hypothesis); compared with real histories on GenericModel subclasses and Couplers (rk.hist: model time, state, number of right-hand-side evaluations per call). State dtypes: Flatten.unflattenTyped is unflattenX for a reference state whose items carry a storage type (int64, int32, float32, float16, float64) - the type is not consulted, deliver (flattenX after unflattenX) is the identity on vectors of the state\'s length (deliver_eq), hence for every typed state the iterators as the callbacks see them (rk4IterVia / eulerIterVia / passVia of KawinV.Solver Part 7) are the iterators on the plain values (iterators_through_typed_state); a variant that casts arrays back to the reference type freezes an integer state (witness casting_unflatten_freezes over Q; deliverCast_f64 with the excluding hypothesis); compared with real runs on integer / reduced-precision / list / scalar-int states (rk.dtype).',
     'level_note': 'Trusted: Lean kernel + Mathlib, axioms propext/Classical.choice/Quot.sound; Butcher\'s theorem (order conditions => order of accuracy) is cited, not formalised; the symbolic extraction (tools/corr/C06.py Poly) is validated numerically against the real iterators on each run; "iterator does not modify its input" is a purity statement in the model (trivial theorem) and is enforced by the direct oracle on NumPy arrays, including right-hand sides that return their argument object; exact-field arithmetic instead of IEEE doubles.',
     'technique': 'symbolic extraction of the Butcher tableau from the code + Lean 4 proof on the generated data + differential correspondence + convergence-order oracle',
     'design_ref': 'DESIGN.md section 6, C06',
@@ -49,11 +61,15 @@ LEAN_MODULES = ['KawinV.Props.C06']
 MONITORED = ['observed convergence order on the sampled problem family, also for vector valued systems in state layouts mixing scalars and arrays, minDtFrac 1e-8 ... 4e-3 and simulation times that are not multiples of the step (Butcher\'s theorem is cited, not formalised)',
              'input vector unchanged on NumPy arrays (aliasing is outside the pure model)',
              'which flatten functions hand back memory of their argument (np.shares_memory measured on the real functions on every run, histogram ownership-of-flatten:*; the model constants Flatten.flattenOwnership etc. are compared with it and a difference is counted, not flagged: after repair be993b1 the step no longer depends on it)',
-             'Python types of the times and steps the callbacks receive (float / np.float64 required); bitwise-level agreement (4 ulp on times, 1e-13 on states) with the reference loop in Python floats']
+             'Python types of the times and steps the callbacks receive (float / np.float64 required); bitwise-level agreement (4 ulp on times, 1e-13 on states) with the reference loop in Python floats',
+             'histories of solve calls: stage pattern / stage arguments / accepted states of every call against the reference for the scheme requested in that call, order of every call\'s own segment (sampled histories of 2-4 calls, 1-2 objects of one class)',
+             'storage type of the state handed to the FIRST callback of a run (it is the model\'s own state: integer for an integer array; counted in state-dtype:first-callback-gets:*, not flagged); all later states must be floating point']
 ASSUMPTIONS = [
     'smooth right-hand sides, step sizes in the asymptotic regime and above round-off (order estimates from step-halving)',
     'the right-hand side does not overwrite the state arrays it is HANDED (a getdXdt that computes in place into its argument breaks the caller\'s state in any ODE library; such models are run and counted under observed-only:rhs-overwrites-argument, never flagged); reusing its own OUTPUT buffer between calls is allowed and checked',
     'correctdXdt is the default no-op when the order is measured (a correction changes the method)',
+    'state-dtype cases: the model returns its derivative in double precision whatever storage type its state arrays have (a getdXdt that evaluates into an integer or float32 array rounds by itself)',
+    'history cases: the model keeps the time and state postProcess hands it and returns them from getCurrentX; a model-level reset restores the initial time and state only (no solver settings live on the model)',
 ]
 TRUSTED = ['Butcher (1963/2008): the 8 order conditions imply local error O(dt^5) for smooth right-hand sides']
 
@@ -2396,6 +2412,8 @@ def corr(ctx, oracle_only=False, nmul=1):
                 'ownership cases: composite smooth systems x rhs variant {fresh array, same reused work arrays, views of one internal buffer, (counted only) overwrites its argument} x site {bare DESolver/identity flatten, GenericModel default flatten, copying override, np.reshape view override, Coupler sub-model} '
                 'x layout {one 1-D array, several arrays, arrays and scalars, 2-D arrays}: all stage arguments and accepted states against an independent loop in Python floats on copies + order; '
                 'scalar-type cases: getDt answer in {float, np.float64, np.float32, np.float16, 0-d double, 0-d single, int} x start time / simulation time in {float, int, np.float32, np.float64} x the three sites: types seen by callbacks, clock = sum of steps, stage times, end time, reference, order; '
+                'histories: 2-4 solve calls on one model object (scheme in {euler, rk4, user-supplied midpoint}, simTime, minDtFrac in {1e-8, 1e-5, 1e-3}, maxDtFrac in {1, 0.3}, proposal L/(n+frac), reset or continuation) x site {GenericModel, Coupler of 2, Coupler of 3} x 1-2 objects of the class: stage pattern, reference per call, order per call; '
+                'state dtypes: initial state in {int64, int32, float32, float64, float16 arrays, Python lists of ints} x {one array, several arrays of possibly different types, arrays and Python/NumPy integer or float scalars} x site {GenericModel, bare DESolver, Coupler}: reference on float(values), float states, own arrays untouched, order; '
                 'non-trivial = non-zero derivative; distinct = (iterator, family, parameters)')
     rng = ctx.rng
     vlib.use_repo()
